@@ -98,6 +98,7 @@ def write_evidence(mod, ctx, wall, exhaustive=None):
         "samples": ctx.samples[: core.MAX_SAMPLES] or ["(none recorded)"],
         "counters": {k: int(v) for k, v in sorted(ctx.counters.items())},
         "known_findings_met": {k: v["count"] for k, v in ctx.known.items()},
+        "distinct_observations": {k: len(v) for k, v in sorted(ctx.sets.items())},
         "inconclusive": ctx.inconclusive,
         "notes": ctx.notes,
     }
